@@ -53,7 +53,7 @@ fn main() {
     let alpha: u32 = args.get(2).and_then(|s| s.parse().ok()).unwrap_or(6);
     let maxk: usize = args.get(3).and_then(|s| s.parse().ok()).unwrap_or(4);
     let mut all = vec![];
-    for s in 1..=alpha { for e in s..=alpha { all.push((s, e)); } }
+    for s in 0..=alpha { for e in s..=alpha { all.push((s, e)); } }
     let mut checked = 0u64;
     let mut cur: Vec<(u32, u32)> = vec![];
     fn rec(all: &[(u32, u32)], k: usize, start: usize, cur: &mut Vec<(u32, u32)>, alpha: u32, checked: &mut u64) -> Option<(Vec<(u32, u32)>, String)> {
@@ -78,6 +78,6 @@ fn main() {
             println!("REPLAY-ARG: {}", inp);
             std::process::exit(1);
         }
-        None => println!("searched {} sets of <= {} ranges over 1..={}: contract holds", checked, maxk, alpha),
+        None => println!("searched {} sets of <= {} ranges over 0..={}: contract holds", checked, maxk, alpha),
     }
 }
